@@ -286,6 +286,11 @@ def generator_rejection(ex):
     if type(ex).__name__ in REJECT_ANYWHERE:
         return True
     tb = traceback.extract_tb(ex.__traceback__)
+    if isinstance(ex, (ValueError, ZeroDivisionError, OverflowError)) and \
+            tb and tb[-1].name in ("mk", "opnd", "<lambda>"):
+        # Python itself refuses the constant sub-expression (3 >> -2, 1 // 0)
+        # while the reused harness folds it: no program was written
+        return True
     return bool(tb) and os.path.abspath(tb[-1].filename).startswith(SRCDIR)
 
 
